@@ -75,7 +75,7 @@ func c10World(t *testing.T, r *simcore.Run) any {
 		mode = "sampled"
 		for k := 0; k < c10PerRun; k++ {
 			c := mcase{onResp: tp.Bool(1, 2, "onresp")}
-			switch tp.Pick([]uint64{6, 4, 1, 1, 1, 2, 2}, "kind") {
+			switch tp.Pick([]uint64{6, 4, 1, 1, 1, 2, 2, 3}, "kind") {
 			case 0:
 				c.kind, c.bit = "bit", tp.Intn(c10ReqLen*8, "bit")
 			case 1:
@@ -90,6 +90,9 @@ func c10World(t *testing.T, r *simcore.Run) any {
 				c.kind, c.onResp = "replay+uid", true
 			case 6:
 				c.kind, c.onResp = "genuine+trailing-cookie", true
+			case 7:
+				c.kind, c.onResp = "resealed-uid", true
+				c.val = tp.Intn(5, "uidvariant")
 			default:
 				c.kind = "genuine"
 			}
@@ -311,6 +314,52 @@ func c10World(t *testing.T, r *simcore.Run) any {
 					mut := append([]byte(nil), prevResp...)
 					mut = append(mut, 0x01, 0x04, byte((4+len(uid))>>8), byte(4+len(uid)))
 					mut = append(mut, uid...)
+					return mut, desc, true
+				case "resealed-uid":
+					// a response of the same session to a different request: correctly sealed under
+					// the server-to-client key, but with another unique identifier
+					uid := append([]byte(nil), uidOf(g)...)
+					pt, ok := ntsOpenRaw(g, w.cl.Auth.NTSKEFetcher.VerifData().S2cKey)
+					if !ok || len(uid) < 32 {
+						skip = true
+						return nil, "", false
+					}
+					switch c.val {
+					case 0:
+						uid = append(uid, 0xde, 0xad, 0xbe, 0xef)
+						desc = "a response sealed under the right key whose identifier is the request's followed by four more bytes"
+					case 1:
+						uid = append(uid, make([]byte, 32)...)
+						desc = "a response sealed under the right key whose identifier is the request's followed by 32 zero bytes"
+					case 2:
+						uid = uid[:len(uid)-4]
+						desc = "a response sealed under the right key whose identifier is the request's without its last four bytes"
+					case 3:
+						uid[len(uid)-1] ^= 0x01
+						desc = "a response sealed under the right key whose identifier differs in its last bit"
+					default:
+						uid[0] ^= 0x80
+						desc = "a response sealed under the right key whose identifier differs in its first bit"
+					}
+					mut := append([]byte(nil), g[:48]...)
+					mut = append(mut, 0x01, 0x04, byte((4+len(uid))>>8), byte(4+len(uid)))
+					mut = append(mut, uid...)
+					nonce := make([]byte, 16)
+					for i := range nonce {
+						nonce[i] = byte(0x30 + i)
+					}
+					ct := sealSIV(w.cl.Auth.NTSKEFetcher.VerifData().S2cKey, nonce, pt, mut)
+					ctPad := (len(ct) + 3) &^ 3
+					flen := 4 + 4 + 16 + ctPad
+					mut = append(mut, 0x04, 0x04, byte(flen>>8), byte(flen), 0, 16, byte(len(ct)>>8), byte(len(ct)))
+					mut = append(mut, nonce...)
+					mut = append(mut, ct...)
+					mut = append(mut, make([]byte, ctPad-len(ct))...)
+					if _, ok := ntsVerify(mut, w.cl.Auth.NTSKEFetcher.VerifData().S2cKey); !ok {
+						r.Fail("harness", "c10/reseal", "the re-sealed response does not verify under the session key")
+						return nil, "", false
+					}
+					r.Probe("resealed-other-identifier")
 					return mut, desc, true
 				case "genuine+trailing-cookie":
 					desc = "the genuine response with an unauthenticated cookie field appended after the authenticator"
